@@ -178,7 +178,11 @@ def check_sequential(run, case):
     kind = case['engine']
     texts = [common.dec(t) for t in case['texts']]
     eng = sut(kind)
-    got = [trees.parse_outcome(eng, t) for t in texts]
+    # the host keeps every statement (and error) of the history referenced,
+    # as an application that caches parsed expressions does
+    kept = []
+    got = [trees.parse_outcome(eng, t, keep=kept if case.get(
+        'keep', True) else None) for t in texts]
     failed_then_more = any(g[0] == 'exc' for g in got[:-1])
     norm = [''.join(t.split()).lower() for t in texts]
     repeated = len(set(norm)) < len(norm)
@@ -445,7 +449,19 @@ def _near_duplicates(draw):
         out.append(t)
     if draw(st.booleans()):
         out.append(base)
+    if draw(st.integers(0, 3)) == 0:
+        # literals that are equal as python values but are different
+        # literals (2 / 2.0, 1 / true, 0 / false / 0.0, 'a' / a)
+        twins = draw(st.sampled_from(LITERAL_TWINS))
+        a, b = draw(st.permutations(twins))[:2]
+        out += ['$.x * %s' % a, '$.y / %s' % b, 'str(%s)' % b, '[%s, %s]' % (
+            a, b)][:draw(st.integers(2, 4))]
     return out
+
+
+LITERAL_TWINS = [('2', '2.0'), ('10', '10.0', '1e1'), ('1', 'true', '1.0'),
+                 ('0', 'false', '0.0'), ("'a'", 'a', '"a"'),
+                 ('null', "'null'"), ("'1'", '1')]
 
 
 def _texts(min_size, max_size, pool=None):
